@@ -1,14 +1,80 @@
 /-
-  Driver.C14 — line protocol front end for property C14 (stub: not built yet).
+  Driver.C14 — line protocol for mean, variance, covariance, softmax and F1.
+
+    @ <fp|rat>                          new case, element type                    → ok
+    t/v/m/w …                           operand definitions, as in Driver.C03
+    mean <values> via=…                 linear_algebra::mean                      → value=… | panic(explicit)
+    variance <values> via=…             linear_algebra::variance                  → value=… | panic(explicit)
+    covcol <M> via=…                    covariance_column_features                → size=FxF data=…
+    covrow <M> via=…                    covariance_row_features                   → size=FxF data=…
+    covt <T> <feature> via=…            covariance (tensor / tensor view input)   → shape=i:F,j:F data=… | panic(explicit)
+    softmax <values>                    linear_algebra::softmax (fp only)         → data=…
+    softmax_f64 <floats>                f64 sanity oracle (harness side only)     → sane len=N
+    f1 <precision> <recall>             f1_score                                  → value=…
 -/
-import Driver.Parse
+import EasyMl.Model.Stats
+import Driver.C03
 
 namespace Driver.C14
+open EasyMl EasyMl.Arith EasyMl.Stats Driver Driver.C03
 
-abbrev State := Unit
+section Generic
+variable {α : Type} [Add α] [Sub α] [Mul α] [Div α] [Neg α] [Zero α] [One α] [NatCast α] [Elem α]
 
-def init : State := ()
+def showValue (o : Outcome α) : String := showOutcome (fun (x : α) => s!"value={Elem.render x}") o
 
-def step (s : State) (_toks : List String) : State × String := (s, "unimplemented")
+def stepStats (e : Env α) (toks : List String) : Env α × String :=
+  match toks with
+  | "mean" :: valsS :: _ =>
+    match (parseVals valsS : Option (List α)) with
+    | some vals => (e, showValue (mean vals))
+    | none => (e, "bad-op")
+  | "variance" :: valsS :: _ =>
+    match (parseVals valsS : Option (List α)) with
+    | some vals => (e, showValue (variance vals))
+    | none => (e, "bad-op")
+  | "covcol" :: name :: _ =>
+    match lookupM e name with
+    | some (.matrix m) => (e, showMatrix (covarianceColumnFeatures m))
+    | _ => (e, "no-operand")
+  | "covrow" :: name :: _ =>
+    match lookupM e name with
+    | some (.matrix m) => (e, showMatrix (covarianceRowFeatures m))
+    | _ => (e, "no-operand")
+  | "covt" :: name :: feature :: _ =>
+    match lookupT e name with
+    | some o => (e, showTensor (covarianceTensor "i" "j" o.asView feature))
+    | none => (e, "no-operand")
+  | "f1" :: pS :: rS :: _ =>
+    match (Elem.parse pS : Option α), (Elem.parse rS : Option α) with
+    | some p, some r => (e, s!"value={Elem.render (f1Score p r)}")
+    | _, _ => (e, "bad-op")
+  | _ => stepEnv e toks
+
+end Generic
+
+abbrev State := Driver.C03.State
+
+def init : State := .none
+
+def step (s : State) (toks : List String) : State × String :=
+  match toks with
+  | ["@", "fp"] => (.fp {}, "ok")
+  | ["@", "rat"] => (.rat {}, "ok")
+  | "softmax_f64" :: valsS :: _ =>
+    -- f64 sanity oracle of the harness (finite, non-negative, sums to one): floats are never
+    -- compared with the model, which only knows the length (theorem `softmax_length`)
+    (s, s!"sane len={(splitComma valsS).length}")
+  | _ =>
+    match s with
+    | .fp e =>
+      match toks with
+      | "softmax" :: valsS :: _ =>
+        match (parseVals valsS : Option (List Fp)) with
+        | some vals => (s, s!"data={showVals (softmax vals)}")
+        | none => (s, "bad-op")
+      | _ => let (e', a) := stepStats e toks; (.fp e', a)
+    | .rat e => let (e', a) := stepStats e toks; (.rat e', a)
+    | _ => (s, "no-case")
 
 end Driver.C14
